@@ -246,6 +246,20 @@ def db_info() -> dict:
     for fam in get_families(DatabaseManager.CERT_BLOCK):
         by_type.setdefault(get_db(fam).get_str(DatabaseManager.CERT_BLOCK, "rot_type"), []).append(fam)
     _DB["rot"] = {k: sorted(v) for k, v in by_type.items()}
+    # revisions whose rot_type differs from the family's latest one (the RoT construction is per revision)
+    from spsdk.utils.database import get_device
+
+    rev_diff = []
+    for fam in get_families(DatabaseManager.CERT_BLOCK):
+        latest = get_db(fam).get_str(DatabaseManager.CERT_BLOCK, "rot_type")
+        for rev in get_device(fam).revisions.revision_names():
+            try:
+                t = get_db(fam, rev).get_str(DatabaseManager.CERT_BLOCK, "rot_type")
+            except Exception:  # pylint: disable=broad-except  # the revision has no certificate block feature
+                continue
+            if t != latest:
+                rev_diff.append((fam, rev, t))
+    _DB["rev_diff"] = sorted(rev_diff)
     fam_type = {f: t for t, fs in by_type.items() for f in fs}
     _DB["fam_type"] = fam_type
     from spsdk.pfr.pfr import CMPA
@@ -411,17 +425,17 @@ def build_paths(ctx, kms: list, rng: random.Random, families_per_type: int, with
     paths.append(Path("rkht-v1", "rkht_v1", "cert_block_1", rk(RKHTv1), all_forms))
     paths.append(Path("rkht-v21", "rkht_v21", "cert_block_21", rk(RKHTv21), all_forms))
 
-    def rot_fn(fam):
+    def rot_fn(fam, rev="latest"):
         def fn(vals):
-            r = Rot(fam, "latest", list(vals))
+            r = Rot(fam, rev, list(vals))
             return r.calculate_hash(), r.export()
         return fn
 
-    def cli_fn(fam):
+    def cli_fn(fam, rev=None):
         def fn(vals):
             out = os.path.join(ctx.workdir, "cli_out.bin")
             os.makedirs(ctx.workdir, exist_ok=True)
-            keyargs = [a for v in vals for a in ("-k", v)]
+            keyargs = [a for v in vals for a in ("-k", v)] + (["-r", rev] if rev else [])
             res = cli_rot(["rot", "calculate-hash", "-f", fam, "-o", out] + keyargs)
             with open(out, "rb") as f:
                 h = f.read()
@@ -456,6 +470,18 @@ def build_paths(ctx, kms: list, rng: random.Random, families_per_type: int, with
                 if with_cli and known:
                     pf = [f for f in forms if f.endswith(":path")]
                     paths.append(Path(f"cli-rot:{rot_type}{suffix}", "cli", known, cli_fn(fam), pf, canon, note=fam))
+
+    # every (family, revision) whose rot_type differs from the family's latest revision: the construction must follow
+    # the revision asked for, not the latest one
+    for fam, rev, rot_type in info.get("rev_diff", []):
+        known = rot_type if rot_type in ("cert_block_1", "cert_block_21", "srk_table_ahab", "srk_table_ahab_v2", "srk_table_hab") else None
+        if known is None:
+            continue
+        forms, canon = (BARE_FORMS, CANON) if rot_type.startswith("srk_table_ahab") else ((CERT_FORMS, "nonca.pem:path") if rot_type == "srk_table_hab" else (all_forms, CANON))
+        paths.append(Path(f"rot:{rot_type}@rev", f"rot_{rot_type}", known, rot_fn(fam, rev), forms, canon, note=f"{fam}/{rev}"))
+        if with_cli:
+            pf = [f for f in forms if f.endswith(":path")]
+            paths.append(Path(f"cli-rot:{rot_type}@rev", "cli", known, cli_fn(fam, rev), pf, canon, note=f"{fam}/{rev}"))
 
     # PFR CMPA ROTKH
     pfr_fams = list(info["pfr"])
